@@ -47,6 +47,10 @@ type C13Scenario struct {
 	// FailProducer lists senders whose body writer fails in the middle of the content: their call
 	// must fail, nothing of their message may be committed, nobody else may notice.
 	FailProducer []int `json:"failProducer,omitempty"`
+	// BreakData lists senders (with a connection of their own) whose connection is reset right
+	// after the server's 354: the first write of the content fails. Their call must fail and
+	// return, nothing of their message is committed, nobody else notices.
+	BreakData []int `json:"breakData,omitempty"`
 }
 
 type c13 struct{}
@@ -94,6 +98,11 @@ func (p *c13) Gen(seed uint64, i int, tier string) (any, bool) {
 	if r.Chance(1, 4) {
 		for k := 0; k < 1+r.Intn(2); k++ {
 			sc.FailProducer = append(sc.FailProducer, r.Intn(sc.N))
+		}
+	}
+	if r.Chance(1, 5) {
+		for k := 0; k < 1+r.Intn(2); k++ {
+			sc.BreakData = append(sc.BreakData, r.Intn(sc.N))
 		}
 	}
 	return sc, true
@@ -211,6 +220,8 @@ func (p *c13) Exec(t *testing.T, scAny any) Outcome {
 	var env *c13Net
 	var dialErr error
 	hooked := false
+	// senders with a connection of their own
+	private := func(i int) bool { return sc.Mode == "dialandsend" || (sc.Mode == "mixed" && i%2 == 1) }
 	res := RunSim(t, sc.Sched, sc.Policy, 400000, 0, func(k *sim.Kernel) (func(), func()) {
 		hooked = installLockHooks(k)
 		scfg := refsmtpd.Config{Caps: []string{"8BITMIME", "ENHANCEDSTATUSCODES"}}
@@ -230,8 +241,13 @@ func (p *c13) Exec(t *testing.T, scAny any) Outcome {
 		// dropping it), so only senders with a connection of their own get one
 		failing := map[int]bool{}
 		for _, i := range sc.FailProducer {
-			if sc.Mode == "dialandsend" || (sc.Mode == "mixed" && i%2 == 1) {
+			if private(i) {
 				failing[i] = true
+			}
+		}
+		for _, i := range sc.BreakData {
+			if private(i) {
+				scfg.Rules = append(scfg.Rules, refsmtpd.Rule{Verb: "DATA", FromContains: fmt.Sprintf("sender-g%d@", i), Action: refsmtpd.Action{ResetNext: true}})
 			}
 		}
 		env = &c13Net{k: k, srv: refsmtpd.New(k, scfg, TLSMat), pipes: make([]*sim.Pipe, sc.N+2)}
@@ -372,6 +388,15 @@ func (p *c13) Exec(t *testing.T, scAny any) Outcome {
 			out.stat("fault.fired.failing_body_writer", 1)
 		}
 		refused[i] = true // same expectation: the call fails and nothing is committed
+	}
+	for _, i := range sc.BreakData {
+		if !private(i) {
+			continue
+		}
+		if !refused[i] {
+			out.stat("fault.fired.connection_dropped_after_354", 1)
+			refused[i] = true
+		}
 	}
 	for i, b := range built {
 		s := slots[i]
@@ -517,6 +542,7 @@ func (p *c13) Info() PropInfo {
 		Stubbed:     []string{"goroutine scheduling (serialising kernel on a synctest bubble)", "TCP (sim.Pipe)", "SMTP server (refsmtpd, one session task per connection)", "clock", "crypto/rand"},
 		NotCovered:  []string{"TLS connections under concurrency", "interleavings inside crypto/tls or other dependencies"},
 		Exhaustive:  func(string) bool { return false },
+		HangIsViolation: true,
 		QuickBudget: 100 * time.Second, ThoroughBudget: 25 * time.Minute,
 	}
 }
